@@ -19,6 +19,7 @@ LEVEL_NOTE = ("Not decided: that the AST equals the written program for all layo
               "numeric values of columns.  E7.l checks the capture point of locations, not every whitespace permutation.")
 LEVEL_TEXT += (" Also: (E7.a) the query text handed to tree-sitter is the untransformed source slice of the stanza's query followed by the internal full-match capture; (E7.n) numerals are the maximal run of ASCII digits at the position; (E7.x) skip_query's escape flag makes exactly the next character of a query string inert; (E7.q) parse_sequence compares the next character with the end marker before every element (empty and trailing-comma forms).")
 LEVEL_TEXT += (" (E7.f) a declaration keyword followed — after optional whitespace — by ':' is a field name of the next stanza's query, not a declaration.")
+LEVEL_TEXT += (" (E7.o) a token that may be absent is tested only after whitespace was skipped on every path since the last consumption (WS/TOK typestate over the parser's call graph).")
 LEVEL_TEXT += (' (E7.eof) no top-level item — nor the file loop — has a successful path whose last look at the input is an end-of-input-fatal `peek()?`.')
 
 POS_FIELDS = ("offset", "location", "chars")
@@ -101,6 +102,50 @@ def run(prog, rep):
                   "'\\n' → row+1, column=0; otherwise column+1 (one per character)", "Location::advance is not `newline: row+1,col=0 / else col+1`: %s" % shape)
     else:
         rep.violation("E7.w", "anchor-lost:Location::advance", "", "not found")
+    # ---- E7.h: what the parser does next depends on the text at the position, not on what it has parsed before
+    rep.rule("E7.h", "no parse decision depends on parser state other than the position: a Parser field that is written after construction (besides offset / location / chars) is never tested by a branch of the parser")
+    padt = prog.adts.get("tsg::parser::Parser")
+    fields = []
+    if padt is None:
+        rep.violation("E7.h", "anchor-lost:Parser", "", "type not found")
+    else:
+        fields = [fl["name"] for v in padt.get("variants", []) for fl in v.get("fields", [])]
+    mut = {}
+    for f in prog.shape_fns():
+        if f.body is None or f.crate.prefix != "tsg" or (f.self_path == "tsg::parser::Parser" and f.name == "new"):
+            continue
+        tr = None
+        for b, idx, st in f.body.field_writes():
+            for x in st["p"].get("p", []):
+                if x["k"] == "field" and x.get("adt") == "tsg::parser::Parser" and x.get("name") not in POS_FIELDS:
+                    mut.setdefault(x["name"], set()).add(f.name)
+        for b, t in f.body.calls():
+            for a in t["args"]:
+                if a["k"] in ("copy", "move"):
+                    tr = tr or Tracer(f.body)
+                    e = tr.operand(a)
+                    if e[0] == "ref" and e[2]:
+                        for x in walk(e[1]):
+                            if x[0] == "place":
+                                for p_ in x[2]:
+                                    if p_[0] == "field" and p_[1] == "tsg::parser::Parser" and p_[3] not in POS_FIELDS:
+                                        mut.setdefault(p_[3], set()).add(f.name)
+    for fld in sorted(fields):
+        if fld in POS_FIELDS:
+            continue
+        if fld not in mut:
+            rep.ok("E7.h", "Parser.%s" % fld, "", "never written after construction")
+            continue
+        tested = []
+        for f in pf:
+            tr = Tracer(f.body)
+            for b in sorted(f.body.reachable()):
+                for g in switch_edges(f.body, tr, b):
+                    if mentions_field(g.cond, "tsg::parser::Parser", fld):
+                        tested.append("%s at %s" % (f.name, sp_str(f.body.term(b).get("sp")) if f.body.term(b).get("sp") else f.loc()))
+                        break
+        rep.check(not tested, "E7.h", "Parser.%s" % fld, "", "written by %s, never tested by a branch" % sorted(mut[fld]),
+                  "Parser.%s is mutable parser state (written by %s) and decides a branch in %s: whether a construct is accepted depends on what was parsed before it, not only on the text" % (fld, sorted(mut[fld]), "; ".join(sorted(set(tested))[:3])))
     # ---- E7.t tokens
     rep.rule("E7.t", "every constant given to consume_token / consume_keyword / consume_declaration_keyword is non-empty ASCII")
     nt = 0
@@ -548,6 +593,10 @@ def run(prog, rep):
     rep.rule("E1.c", e1_div.__doc__.split("\n")[0])
     n_loops, stats, mc = e1_div.run_e1c(prog, _Filter(rep, lambda key: "tsg::parser::Parser" in key))
     rep.floor("E1.c", stats["parser"], 14, "parser loops shown to consume input")
+    # ---- E7.o optional tokens are tested in the whitespace-skipped state
+    from ..engines import e7_layout
+    no = e7_layout.optional_tokens_after_whitespace(prog, rep)
+    rep.floor("E7.o", no, 8, "optional-token tests")
 
 
 def const_str_of(e):
